@@ -43,7 +43,7 @@ SER_REWRITES = [
                 'let ghost mut cuts: Seq<int> = seq![0int]; let ghost mut lasts: Seq<Point> = seq![origin()];'},
     {'rule': 'R1', 'find': 'let mut advance = 1;', 'replace': 'let mut advance = 1; let ghost s0 = f.st(); proof { lemma_tail_idx(ops@, ops0, n); }'},
     {'rule': 'R1', 'find': 'ops = &ops[advance..];',
-     'replace': 'proof { lemma_tail(ops@, ops0, n, advance as int); let rec = f.st().recs.last(); let cnt = row_count(rec, lasts.last());\n'
+     'replace': 'proof { lemma_tail(ops@, ops0, n, advance as int); let rec = f.st().recs.last(); let cnt = row_count(rec, s0.last);\n'
                 ' assert(%s ==> advance == cnt); //@L window_advance\n'
                 ' lemma_step(s0.recs, cuts, lasts, ops0, rec, cnt); '
                 'lasts = lasts.push(new_last_k(kw(rec.kw), rec.a, lasts.last())); '
@@ -74,7 +74,7 @@ SER_REWRITES = [
      'replace': 'for i in 0..array.len() { let val = &array[i];'},
     # R1: every `writeln!(..)?` completes one operator record: the per-arm check is injected right behind it
     {'rule': 'R1', 'regex': r'writeln!\(((?:[^()]|\((?:[^()]|\([^()]*\))*\))*)\)\?', 'count': '*',
-     'replace': r'({ writeln!(\1)?; proof { assert(%s ==> arm_ok(s0, f.st(), lasts.last(), ops0, n)); //@L round_trip\n } })' % H},
+     'replace': r'({ writeln!(\1)?; proof { assert(%s ==> arm_ok(s0, f.st(), ops0, n)); //@L round_trip\n } })' % H},
     # R1: lemma hints for the two operators that carry a vector (inside the block opened by the wrap above)
     {'rule': 'R1', 'regex': r'\(\{ (writeln!\(f, "\[\{\}\] \{\} d", iter_format_sp\((\w+)\))', 'count': '*',
      'replace': r'({ proof { lemma_dash(st_open(f.st()), \2@); } \1'},
@@ -138,7 +138,7 @@ UNIT = {
                'ops0 == ops_in@', '0 <= n <= ops0.len()', 'is_tail(ops@, ops0, n)',
                ('round_trip', '%s ==> st_rest(f.st())' % H),
                ('round_trip', '%s ==> (reads_as(f.st().recs, cuts, lasts, ops0) && cuts.last() == n)' % H),
-               ('current_point', '%s ==> (current_point is Some ==> current_point == Some(lasts.last()))' % H)],
+               ('current_point', '%s ==> (lasts.last() == f.st().last && (current_point is Some ==> current_point == Some(f.st().last)))' % H)],
             'decreases': 'ops@.len()'},
         2: {'for_ghost': 'it', 'invariant': INNER_ARGS_INV},
         3: {'for_ghost': 'it', 'invariant': INNER_ARGS_INV},
